@@ -66,6 +66,37 @@ func vcText(fr *FuncResult, ax []axiomInfo, o *Obligation, model bool) string {
 		b.WriteString("(set-option :produce-models true)\n")
 	}
 	b.WriteString("(set-logic ALL)\n")
+	arr8 := "(Array (_ BitVec 64) (_ BitVec 8))"
+	all := o.Goal.S
+	for _, h := range o.Hyps {
+		all += h.S
+	}
+	// axioms about uninterpreted strconv applications that occur in the VC
+	for i, a := range ax {
+		if !picked[i] && strings.Contains(a.t.S, "(strconv_") {
+			// pick it if its application term occurs in the VC text
+			if idx := strings.Index(a.t.S, "(strconv_"); idx >= 0 {
+				app := balanced(a.t.S[idx:])
+				core := app[strings.Index(app, " "):]
+				if strings.Contains(all, core) {
+					picked[i] = true
+					symsOf(a.t.S, used)
+				}
+			}
+		}
+	}
+	for i, a := range ax {
+		if picked[i] {
+			all += a.t.S
+		}
+	}
+	for _, k := range []string{"Int", "Uint", "Float"} {
+		if strings.Contains(all, "(strconv_"+k+"_") {
+			fmt.Fprintf(&b, "(declare-fun strconv_%s_ok (%s (_ BitVec 64) (_ BitVec 64)) Bool)\n", k, arr8)
+			fmt.Fprintf(&b, "(declare-fun strconv_%s_val (%s (_ BitVec 64) (_ BitVec 64)) (_ BitVec 64))\n", k, arr8)
+			fmt.Fprintf(&b, "(declare-fun strconv_%s_range (%s (_ BitVec 64) (_ BitVec 64)) Bool)\n", k, arr8)
+		}
+	}
 	usesBytesEq := false
 	for _, h := range o.Hyps {
 		if strings.Contains(h.S, "bytes_eq") {
@@ -415,4 +446,21 @@ func trimModel(m string) string {
 		return m[:20000] + "\n...(truncated)"
 	}
 	return m
+}
+
+// balanced returns the prefix of s that is one balanced s-expression.
+func balanced(s string) string {
+	d := 0
+	for i, c := range s {
+		switch c {
+		case '(':
+			d++
+		case ')':
+			d--
+			if d == 0 {
+				return s[:i+1]
+			}
+		}
+	}
+	return s
 }
